@@ -78,6 +78,12 @@ type Script struct {
 	RepTiny  []int    `json:"rep_tiny,omitempty"`
 	MixFlags bool     `json:"mix_flags,omitempty"`
 
+	// Texts gives request messages (by position) a hostile string as their
+	// text field; JSONEsc makes the JSON fronts spell every backslash of the
+	// encoded message as \u005c (the same value, another escape).
+	Texts   []string `json:"texts,omitempty"`
+	JSONEsc bool     `json:"json_u005c,omitempty"`
+
 	// Hop: class of HTTP/1 connection header fields added to the request
 	// (HTTP front); InProc: the request is handed to the Mux in-process.
 	Hop    string `json:"hop,omitempty"`
@@ -100,6 +106,14 @@ func (s *Script) String() string {
 		meta += fmt.Sprintf(" duplex size=%d", s.MsgSize)
 	}
 	meta += s.sizes()
+	for i, t := range s.Texts {
+		if t != "" {
+			meta += fmt.Sprintf(" text%d=%q", i, t)
+		}
+	}
+	if s.JSONEsc {
+		meta += " backslash-as-u005c"
+	}
 	if s.Hop != "" {
 		meta += " hop=" + s.Hop
 	}
@@ -603,6 +617,63 @@ func encScripts(rng *rand.Rand) []*Script {
 	return out
 }
 
+// hostileTexts are string values whose JSON encoding is hard on a scanner
+// that looks for message boundaries: trailing backslashes (an escaped
+// backslash right before the closing quote), escaped quotes, braces and
+// brackets inside strings, a lone closing brace, non-ASCII at the end.
+var hostileTexts = []string{
+	`C:\temp\`, `two\\`, `three\\\`, `say "hi"`, `q\"`, `\"}`, `{"a":[1,2}}]`, `}{`, `]}"`, `tail é\`, `\`, `"`,
+}
+
+// textClass names the class of a hostile text for finding keys.
+func textClass(t string) string {
+	switch {
+	case strings.HasSuffix(t, `\`):
+		return "ends-in-backslash"
+	case strings.ContainsAny(t, `{}[]`):
+		return "braces-in-string"
+	case strings.Contains(t, `"`):
+		return "quotes"
+	}
+	return "other"
+}
+
+// textScripts puts every hostile text into the first / middle / last message
+// of a client-streaming and a bidi call on the JSON fronts (HTTP, WebSocket),
+// also with the backslashes spelled \u005c, and once on the binary fronts.
+func textScripts(rng *rand.Rand, thorough bool) []*Script {
+	var out []*Script
+	mk := func(front, shape, fam string, server, client []string, pos int, t string, esc bool) {
+		s := &Script{Front: front, Shape: shape, NMsg: 3, Server: server, Client: client, Fam: fam, BigReq: -1, BigRep: -1, JSONEsc: esc}
+		s.Texts = make([]string, 3)
+		s.Texts[pos] = t
+		s.MDClass = mdClasses[rng.Intn(len(mdClasses))]
+		s.MD = drawMD(rng, s.MDClass)
+		out = append(out, s)
+	}
+	for ti, t := range hostileTexts {
+		for pos := 0; pos < 3; pos++ {
+			if !thorough && (ti+pos)%3 != 0 && !strings.HasSuffix(t, `\`) {
+				continue // quick: every backslash text at every position, the others at one
+			}
+			for _, esc := range []bool{false, true} {
+				if esc && !strings.Contains(t, `\`) {
+					continue
+				}
+				mk("http", "cs", "text:read-to-eof", []string{"r", "r", "e"}, []string{"s", "s", "s", "c"}, pos, t, esc)
+				mk("http", "bidi", "text:pingpong", []string{"s", "p"}, []string{"s", "s", "s", "c"}, pos, t, esc)
+				mk("ws", "cs", "text:ws-read-all", []string{"r", "r"}, []string{"s", "s", "s"}, pos, t, esc)
+				mk("ws", "bidi", "text:ws-batch", []string{"r", "r", "s", "s"}, []string{"s", "s", "s"}, pos, t, esc)
+			}
+			if pos == 1 {
+				mk("grpc", "bidi", "text:pingpong", []string{"s", "p"}, []string{"s", "s", "s", "c"}, pos, t, false)
+				mk("web", "bidi", "text:pingpong", []string{"s", "p"}, []string{"s", "s", "s", "c"}, pos, t, false)
+			}
+		}
+	}
+	return out
+}
+
 // pipelined enumerates the full-duplex scripts: a bidi echo in which the
 // client keeps sending (its own goroutine) while the replies flow back, with
 // and without compression, so that both directions of the proxy work at the
@@ -758,6 +829,11 @@ func materialise(rng *rand.Rand, st structure) *Script {
 	if rng.Intn(3) == 0 {
 		drawSizes(rng, &s)
 	}
+	if s.NMsg > 0 && !s.Duplex && !s.HTTPGet && rng.Intn(4) == 0 {
+		s.Texts = make([]string, s.NMsg)
+		s.Texts[rng.Intn(s.NMsg)] = hostileTexts[rng.Intn(len(hostileTexts))]
+		s.JSONEsc = rng.Intn(3) == 0
+	}
 	return &s
 }
 
@@ -798,6 +874,7 @@ func Cases(rng *rand.Rand, thorough bool) []*Script {
 			list = append(list, sizeScripts(rng, []string{"grpc", "web", "http"})...)
 			list = append(list, encScripts(rng)...)
 		}
+		list = append(list, textScripts(rng, true)...)
 		// WebSocket scripts: every structure six times; connection-header
 		// scripts: three draws
 		for _, st := range wsStructures() {
@@ -868,6 +945,7 @@ func Cases(rng *rand.Rand, thorough bool) []*Script {
 	// empty / tiny messages at every position x compression x front
 	list = append(list, sizeScripts(rng, []string{"grpc", "web", "http"})...)
 	list = append(list, encScripts(rng)...)
+	list = append(list, textScripts(rng, false)...)
 	// connection-header scripts (every class x shape x real / in-process) and
 	// a third of the WebSocket structures
 	list = append(list, hopScripts(rng)...)
